@@ -60,6 +60,11 @@ func familySymbols(fn *ssa.Function) map[string]bool {
 
 func init() {
 	register("C01", func(c *Ctx) {
+		// (concurrent-capture) function literals that run concurrently do not share a written local (engine/concap.go)
+		concurrentCaptureRule(c, "concurrent-capture", func(pk string) bool {
+			return strings.HasPrefix(pk, "core/trie") || pk == "core/state" || pk == "core/deprecatedstate" || pk == "core/crypto"
+		})
+		c.needFixture("concurrent-capture")
 		p := c.P
 		c.Explain = "Structural conditions of the state commitment decided from SSA terms, CFG and field-store ownership: (formula) contract commitment = Pedersen(Pedersen(Pedersen(classHash, storageRoot), nonce), 0), class leaf = Poseidon(\"CONTRACT_CLASS_LEAF_V0\", casmHash), state commitment = 0 | contractRoot (classRoot = 0 ∧ version < 0.14.0) | Poseidon(\"STARKNET_STATE_V0\", contractRoot, classRoot), identical in both state backends; " +
 			"(hash-family) every trie role (contract, contract storage → Pedersen; class → Poseidon; temp-trie slots) is constructed with its family in both backends; (root-auth) Update/Revert compare the root before mutating and before persisting, and Finalise takes old/new root from Commitment() around Update; (trie2-dirty) every node built or copied by trie2 insert/delete carries fresh dirty flags; " +
@@ -691,6 +696,37 @@ func c01CommitBeforeCommitment(c *Ctx) {
 		c.check(bad == "" && k > 0, "commit-before-commitment", "(*stateObject).commit: root re-derived on every success path", p.Pos(fnPos(f)), "every successful return follows tr.Commit() and the store of its root into the contract record", "the successful return at "+bad+" is reached without committing the storage trie and storing its root: the leaf commitment is then computed from the root kept in the record, which is not authoritative")
 	} else {
 		c.und("commit-before-commitment", "core/state.stateObject.commit", "", "anchor not found")
+	}
+	// the storage root kept in the contract record steers nothing: no branch of a stateObject method (or of a function literal
+	// inside one) is conditioned on contract.StorageRoot. The records written by the head-state migration carry a zero root for
+	// contracts that do have storage; seeded changes C01-D, C01-J and C01-K each take a short cut when the recorded root is zero
+	// (skip the commit, trust the root, open the trie as empty) and drop that storage from the contract leaf.
+	nObj := 0
+	for _, fn := range p.sortedFuncs() {
+		if pkgRelOf(fn) != "core/state" || fn.Origin() != nil || strings.HasSuffix(p.Pos(fnPos(fn)), "_test.go") {
+			continue
+		}
+		root := rootOf(fn)
+		if root.Signature.Recv() == nil || !strings.HasSuffix(root.Signature.Recv().Type().String(), "stateObject") {
+			continue
+		}
+		nObj++
+		allInstrsOne(fn, func(in ssa.Instruction) {
+			iff, ok := in.(*ssa.If)
+			if !ok {
+				return
+			}
+			for v := range backSlice(iff.Cond) {
+				if fa, isFA := v.(*ssa.FieldAddr); isFA && fieldName(fa.X.Type(), fa.Field) == "StorageRoot" {
+					c.viol("commit-before-commitment", qname(root)+": branch on the recorded storage root", p.Pos(posOf(in, fn)), "a branch of "+qname(root)+" depends on contract.StorageRoot, which is not authoritative (records written by the head-state migration carry a zero root for contracts that have storage): the short cut taken for a zero root drops the contract's existing storage from its leaf commitment")
+				}
+			}
+		})
+	}
+	if nObj < 5 {
+		c.und("commit-before-commitment", "core/state.stateObject methods", "", fmt.Sprintf("only %d methods found", nObj))
+	} else {
+		c.ok("commit-before-commitment", "stateObject: no branch on the recorded storage root", "", fmt.Sprintf("%d methods and literals of stateObject inspected", nObj))
 	}
 }
 
